@@ -27,8 +27,8 @@ type tgFile struct {
 	Lines []tgLine `json:"lines"`
 }
 
-var tgClasses = []string{"test", "failing", "underscore", "unicode", "disabled", "helper", "method", "captest", "commented", "blockline", "indented", "onelinecomment"}
-var tgKinds = []string{"src", "testish", "gotest", "gold", "backup"}
+var tgClasses = []string{"test", "failing", "oneline", "bracecomment", "failingoneline", "underscore", "unicode", "disabled", "helper", "method", "captest", "commented", "blockline", "indented", "onelinecomment"}
+var tgKinds = []string{"src", "testish", "gotest", "exttest", "gold", "backup"}
 
 func tgFileName(kind string, i int) string {
 	base := string(rune('a'+i)) + "file"
@@ -37,7 +37,7 @@ func tgFileName(kind string, i int) string {
 		return base + ".go"
 	case "testish":
 		return base + "_tests.go"
-	case "gotest":
+	case "gotest", "exttest":
 		return base + "_test.go"
 	case "gold":
 		return base + ".gold.v"
@@ -60,6 +60,8 @@ func tgRender(f tgFile, pkg string) string {
 	var sb strings.Builder
 	if f.Kind == "gold" {
 		sb.WriteString("(* gold *)\n")
+	} else if f.Kind == "exttest" {
+		sb.WriteString("package " + pkg + "_test\n\n")
 	} else {
 		sb.WriteString("package " + pkg + "\n\n")
 	}
@@ -70,6 +72,12 @@ func tgRender(f tgFile, pkg string) string {
 			fmt.Fprintf(&sb, "func test%s() bool {\n\treturn true\n}\n\n", l.N)
 		case "failing":
 			fmt.Fprintf(&sb, "func failing_test%s() bool {\n\treturn true\n}\n\n", l.N)
+		case "oneline":
+			fmt.Fprintf(&sb, "func test%s() bool { return true }\n\n", l.N)
+		case "bracecomment":
+			fmt.Fprintf(&sb, "func test%s() bool { // always\n\treturn true\n}\n\n", l.N)
+		case "failingoneline":
+			fmt.Fprintf(&sb, "func failing_test%s() bool { return true }\n\n", l.N)
 		case "underscore":
 			fmt.Fprintf(&sb, "func test_%s() bool {\n\treturn true\n}\n\n", l.N)
 		case "unicode":
@@ -121,6 +129,11 @@ func C18(c *ev.Ctx) {
 			cases = append(cases, []tgFile{{Kind: k, Name: tgFileName(k, 0), Lines: []tgLine{{cl, name()}, {"test", name()}, {"failing", name()}}}})
 		}
 	}
+	// an external test file (package <pkg>_test) that sorts before the sources, carrying no tests itself
+	for _, cl := range []string{"helper", "onelinecomment"} {
+		cases = append(cases, []tgFile{{Kind: "exttest", Name: tgFileName("exttest", 0), Lines: []tgLine{{cl, name()}}},
+			{Kind: "src", Name: tgFileName("src", 1), Lines: []tgLine{{"test", name()}, {"failing", name()}, {"oneline", name()}}}})
+	}
 	// random directories: 1-3 files, 0-4 lines each
 	for i := 0; i < c.Pick(60, 1500); i++ {
 		var d []tgFile
@@ -153,7 +166,7 @@ func C18(c *ev.Ctx) {
 			for _, l := range f.Lines {
 				ls = append(ls, fmt.Sprintf("[class |-> %s, n |-> %s]", tlaStr(l.Class), tlaStr(tgTestName(l))))
 			}
-			fs = append(fs, fmt.Sprintf("[kind |-> %s, name |-> %s, lines |-> <<%s>>]", tlaStr(f.Kind), tlaStr(f.Name), strings.Join(ls, ", ")))
+			fs = append(fs, fmt.Sprintf("[kind |-> %s, name |-> %s, lines |-> <<%s>>]", tlaStr(strings.Replace(f.Kind, "exttest", "gotest", 1)), tlaStr(f.Name), strings.Join(ls, ", ")))
 		}
 		sep := ","
 		if i == len(cases)-1 {
@@ -191,6 +204,7 @@ func C18(c *ev.Ctx) {
 	tg := filepath.Join(c.Bin, "test_gen")
 	nontriv := 0
 	compiled := 0
+	outRuns := 0
 	for i, d := range cases {
 		root := filepath.Join(c.Scratch, "tgdir", "semantics")
 		_ = os.RemoveAll(filepath.Dir(root))
@@ -250,8 +264,32 @@ func C18(c *ev.Ctx) {
 				map[string]string{"dir.json": jsonStr(d), "go.out": goOut, "coq.out": coqOut})
 			continue
 		}
+		// -out FILE gives the same bytes as standard output, whatever FILE held before (sampled)
+		if len(wantL) > 0 && outRuns < c.Pick(4, 40) {
+			outRuns++
+			for _, mode := range []string{"-go", "-coq"} {
+				wantOut := goOut
+				if mode == "-coq" {
+					wantOut = coqOut
+				}
+				for what, prior := range map[string][]byte{"absent": nil, "a longer file": []byte(wantOut + strings.Repeat("// stale tail\n", 40)), "a shorter file": []byte("x\n"), "the same content": []byte(wantOut)} {
+					f := filepath.Join(c.Scratch, "tgdir", "out.gen")
+					_ = os.Remove(f)
+					if prior != nil {
+						_ = os.WriteFile(f, prior, 0644)
+					}
+					o, err := exec.Command(tg, mode, "-out", f, root).CombinedOutput()
+					got, _ := os.ReadFile(f)
+					if err != nil || string(got) != wantOut {
+						c.Violation("testgen.out-file", fmt.Sprintf("test_gen %s -out FILE where FILE was %s: the file differs from what the same run prints to standard output (%d vs %d bytes, err %v)\n%s", mode, what, len(got), len(wantOut), err, firstLines(string(o), 4)),
+							map[string]string{"dir.json": jsonStr(d), "got.txt": string(got), "want.txt": wantOut})
+						break
+					}
+				}
+			}
+		}
 		// the generated Go file compiles against the package (sampled)
-		if len(wantL) > 0 && compiled < c.Pick(3, 25) && tgCompilable(d) {
+		if len(wantL) > 0 && (compiled < c.Pick(3, 25) || tgMustCompile(d)) && tgCompilable(d) {
 			compiled++
 			if msg := tgCompile(c, root, goOut); msg != "" {
 				c.Violation("testgen.compile", "the generated Go test file does not compile against the package:\n"+msg, map[string]string{"dir.json": jsonStr(d), "go.out": goOut})
@@ -262,6 +300,7 @@ func C18(c *ev.Ctx) {
 	c.Set("evaluations", len(cases))
 	c.Set("distinct_nontrivial", nontriv)
 	c.Set("compiled_samples", compiled)
+	c.Set("out_file_prior_state_samples", outRuns)
 	c.Set("rule", "directories = systematic (file kind x line class, alone and next to a test and a failing test) + seeded random (1-3 files, 0-4 lines); non-trivial = at least one test expected")
 }
 
@@ -281,8 +320,8 @@ func tgDescribe(d []tgFile) string {
 func tgFindingKey(d []tgFile, gotGo, gotCoq, want []string) string {
 	for _, f := range d {
 		for _, l := range f.Lines {
-			if (f.Kind == "gotest" || f.Kind == "gold") && (l.Class == "test" || l.Class == "failing" || l.Class == "blockline") {
-				return "testgen.go-reads-" + f.Kind
+			if (f.Kind == "gotest" || f.Kind == "exttest" || f.Kind == "gold") && (l.Class == "test" || l.Class == "failing" || l.Class == "blockline" || l.Class == "oneline" || l.Class == "bracecomment" || l.Class == "failingoneline") {
+				return "testgen.go-reads-" + strings.Replace(f.Kind, "exttest", "gotest", 1)
 			}
 		}
 	}
@@ -305,11 +344,20 @@ func tgFindingKey(d []tgFile, gotGo, gotCoq, want []string) string {
 
 func tgCompilable(d []tgFile) bool {
 	for _, f := range d {
-		if f.Kind == "gotest" {
-			return false
+		if f.Kind == "gotest" || f.Kind == "exttest" {
+			for _, l := range f.Lines {
+				if l.Class != "helper" && l.Class != "onelinecomment" && l.Class != "commented" {
+					return false
+				}
+			}
 		}
 	}
 	return true
+}
+
+// tgMustCompile: directories whose generated file is always compiled (an external test file sorts first)
+func tgMustCompile(d []tgFile) bool {
+	return len(d) > 1 && d[0].Kind == "exttest" && tgCompilable(d)
 }
 
 func tgCompile(c *ev.Ctx, root, goOut string) string {
